@@ -418,11 +418,12 @@ def run_workers(ctx, job):
             if fl["verdict"] == "confirmed":
                 if jenv:
                     # record the environment the case needs
-                    with open(failp) as fh:
+                    # (descriptions may hold arbitrary bytes: keep them as they are)
+                    with open(failp, errors="surrogateescape") as fh:
                         body = fh.read()
                     lines = body.split("\n", 1)
                     body = lines[0] + "\n# env: " + " ".join("%s=%s" % kv for kv in sorted(jenv.items())) + "\n" + (lines[1] if len(lines) > 1 else "")
-                    with open(failp, "w") as fh:
+                    with open(failp, "w", errors="surrogateescape") as fh:
                         fh.write(body)
                 dst = ctx.save_violation(failp, "%s-w%d.replay" % (tag, seed % 1000003))
                 ctx.violations.append(("%s: %s" % (fl["signature"], fl["msg"][:300].replace("\n", " | ")), dst))
